@@ -50,9 +50,10 @@ Fixpoint crecv (inb : N) (nw : nat) (wfail : option nat) (items : list item) : l
              the loop goes on reading until the connection is gone *)
           ARouteSync i :: AEvStreamError :: AErrCall :: ADisconnectCall :: crecv inb nw wfail rest
       | ISmR =>
-          if match wfail with Some k => Nat.eqb k (S nw) | None => false end
-          then [AWriteFail inb; AQuit; AErrCall; AEvDisconnected inb]
-          else AWrite inb :: ARouteAsync i :: crecv inb (S nw) wfail rest
+          (* an answer that cannot be written (the connection is going away) does not end the loop: what was
+             received before the loss is still in the buffers and is processed; the read side reports the loss *)
+          (if match wfail with Some k => Nat.eqb k (S nw) | None => false end
+           then AWriteFail inb else AWrite inb) :: ARouteAsync i :: crecv inb (S nw) wfail rest
       | IClose => [ARecvStreamClose; AQuit; AEvDisconnected inb]
       | IStanza _ _ => ARouteAsync i :: crecv (inb + 1) nw wfail rest
       | ISmA _ | INonza _ => ARouteAsync i :: crecv inb nw wfail rest
@@ -75,16 +76,14 @@ Fixpoint precv (items : list item) : list action :=
   end.
 
 (* ---- declarative side: what "completely received before the loop ended" means ---- *)
-(* items processed before the loop stops: up to the first IBad / IClose, or the
-   acknowledgement request whose answer cannot be written *)
+(* items processed before the loop stops: up to the first IBad / IClose (a failing answer
+   write does not stop it; [nw] and [wfail] are kept as parameters for the statements) *)
 Fixpoint processed (nw : nat) (wfail : option nat) (items : list item) : list item :=
   match items with
   | [] => []
   | IBad :: _ => []
   | IClose :: _ => []
-  | ISmR :: rest =>
-      if match wfail with Some k => Nat.eqb k (S nw) | None => false end then []
-      else ISmR :: processed (S nw) wfail rest
+  | ISmR :: rest => ISmR :: processed (S nw) wfail rest
   | i :: rest => i :: processed nw wfail rest
   end.
 Fixpoint pprocessed (items : list item) : list item :=
@@ -99,6 +98,9 @@ Definition routed (tr : list action) : list item :=
   flat_map (fun a => match a with ARouteSync i | ARouteAsync i => [i] | _ => [] end) tr.
 Definition answers (tr : list action) : list N :=
   flat_map (fun a => match a with AWrite h => [h] | _ => [] end) tr.
+(* every answer the loop wrote or tried to write, in order *)
+Definition attempted (tr : list action) : list N :=
+  flat_map (fun a => match a with AWrite h | AWriteFail h => [h] | _ => [] end) tr.
 Definition count_stanzas (l : list item) : N := N.of_nat (length (filter is_stanza l)).
 Definition count_act (p : action -> bool) (tr : list action) : nat := length (filter p tr).
 Definition is_err a := match a with AErrCall => true | _ => false end.
